@@ -108,3 +108,44 @@ CHECKS["C10"] = dict(
          "in-process with three unusable key materials must give exactly the placeholder-mode output.",
     design="5 C10", note=L3_NOTE + " The in-process overlay driver is trusted for Decrypt and for injecting key material through the option setters.",
     technique="TLC-generated cases replayed on the real CLI in placeholder and encrypt mode (two processes, one key file); leaf-wise equivalence, determinism, injectivity, fail-closed with injected unusable keys")
+
+L2_NOTE = ("Trusted: TLC, the Python judge (lib/streamlib.py: concrete line pool, channel drivers; lib/jsonx.py decides what a JSON object "
+           "line is), the overlay in-process driver (fault-injecting reader / writer around the repository's own stream entry points), strace. "
+           "The specification's invariants say the design of the scan loop admits no bad state; the verdict comes only from the property "
+           "predicate evaluated on bytes / exit status the real code produced; a trace the specification rejects while the predicate holds "
+           "is reported as SPEC-DRIFT, not as a violation.")
+
+CHECKS["C06"] = dict(
+    level="model_checking",
+    text="spec/Stream.tla models the scan loop of reader.go with one action per branch (ScanLine, SkipBlankAtMax, ParseFail, Emit, Eof ...); "
+         "TLC checks OutputIsMap, NoRawCopy, OkIsComplete, AppendOnly, BarExact and termination on every sequence of line kinds up to the bound "
+         "x final newline x progress bar. Every terminal state is replayed on the real code: the real CLI over file / gzip / stdin x stdout / "
+         "--outputFile x LF / CRLF (some runs repeated) and the in-process stream entry points with 1-byte, 7-byte and unlimited read chunks; "
+         "the bytes must equal the concatenation of what each line yields when run alone through the CLI. The recorded executions (one event "
+         "per Write call / output line) are validated as behaviours of Stream by TLC (StreamTrace.tla). A relation over sequences and channel "
+         "combinations, which single-line fixtures cannot reach.",
+    design="5 C06", note=L2_NOTE,
+    technique="TLA+ spec of the scan loop model-checked by TLC; every terminal state replayed over all channel combinations of the real CLI; recorded executions trace-validated against the spec")
+
+CHECKS["C07"] = dict(
+    level="model_checking",
+    text="Three bindings. (1) Stream.tla: TLC enumerates sequences over all line kinds incl. top-level arrays / scalars, truncated objects, trailing "
+         "garbage, legacy text lines and over-long lines (OnlyTooLongStops, LongNeverEmitted); terminal states are replayed through the real CLI under "
+         "placeholder, all-flags, field-name, selective and encryption modes and trace-validated (the specification has no crash action). (2) RedactorTW / "
+         "RedactorEW: every operator-table entry x every value shape incl. $date / $oid / $binary over every scalar kind, arrays and documents, and zone "
+         "slots / statement arrays holding the wrong kind of value, batched through the CLI and bisected to the killing line. (3) mutated real lines "
+         "between two ordinary lines and nesting probes on both sides of the measured reader limit. Verdict: no crash signature, exit 0 unless a line "
+         "exceeds the limit (then an explicit error, nothing passed through), ordinary lines unchanged, a bad line at most one well-formed line.",
+    design="5 C07", note=L2_NOTE,
+    technique="TLC-enumerated line-kind sequences and table-walk value shapes replayed on the real CLI; crash bisection; mutation driver; measured line limit and nesting probes")
+
+CHECKS["C08"] = dict(
+    level="model_checking",
+    text="Stream.tla with the fault environment: the k-th output write fails or is short, reading fails in front of / inside line i or at the very "
+         "end; TLC checks FailureReported, PrefixOfFaultFree, OkIsComplete and termination for every line sequence x every fault position. Every "
+         "terminal state is replayed in-process with exact k-th-call fault injection around the repository's stream entry points and judged (fault "
+         "happened => failure returned; bytes written are a prefix of the fault-free output ending on a line boundary); the executions are "
+         "trace-validated against the spec; gzip streams are cut / flipped / read-failed at byte offsets; the real CLI runs against /dev/full "
+         "(stdout and --outputFile), a closed pipe, cut and CRC-damaged .gz files and strace-injected ENOSPC.",
+    design="5 C08", note=L2_NOTE,
+    technique="TLC-enumerated fault positions replayed with exact fault injection in-process; trace validation; gzip damage at byte offsets; real devices and strace injection through the CLI")
